@@ -2,6 +2,8 @@ package checks
 
 import (
 	"fmt"
+
+	corev1 "k8s.io/api/core/v1"
 	"sync"
 	"sync/atomic"
 	"testing"
@@ -26,6 +28,8 @@ type scOpt struct {
 	raw     bool // do not converge first (first deployment scenarios)
 	mons    []func(*w.MonCtx)
 	noFreq0 bool // keep the default reconcileFrequency (timed scenarios)
+	// nodeAnnots: annotations per node name (resource override annotations)
+	nodeAnnots map[string]map[string]string
 }
 
 func mkScenario(t *testing.T, o scOpt) *w.Scenario {
@@ -34,6 +38,11 @@ func mkScenario(t *testing.T, o scOpt) *w.Scenario {
 	}
 	sc := &w.Scenario{Name: o.name, Cfg: o.cfg, Tpls: w.TplMap(o.tpls...), Enabled: o.alpha.Enabled, Monitors: o.mons}
 	objs := w.Nodes(o.nodes...)
+	for _, ob := range objs {
+		if n, ok := ob.(*corev1.Node); ok && o.nodeAnnots[n.Name] != nil {
+			n.Annotations = o.nodeAnnots[n.Name]
+		}
+	}
 	opts := o.eds
 	if !o.noFreq0 {
 		opts = append([]w.EDSOpt{w.WithFrequency(0)}, opts...)
@@ -42,7 +51,11 @@ func mkScenario(t *testing.T, o scOpt) *w.Scenario {
 	objs = append(objs, o.extra...)
 	st := w.NewState(0, objs...)
 	if !o.raw {
-		st = w.Converge(t, sc, st)
+		f, why := w.TryConverge(t, sc, st)
+		if f == nil {
+			monitoredSetup(t, sc, st, why)
+		}
+		st = f
 	}
 	for _, ev := range o.first {
 		out := w.Step(t, sc, st, ev)
@@ -54,6 +67,72 @@ func mkScenario(t *testing.T, o scOpt) *w.Scenario {
 	st.Budget = o.budget
 	sc.Init = []*w.State{st}
 	return sc
+}
+
+// setupRun: the run of the check that is building scenarios (set by the callers of mkScenario that want the set-up
+// itself monitored when it fails to converge).
+var setupRun *h.Run
+
+// setupNonConvergence: signature under which a set-up that does not converge is itself reported (only C02 sets it).
+var setupNonConvergence string
+
+// monitoredSetup is reached when the set-up of a scenario (first deployment of template A by fair rounds) does not
+// reach a fixpoint. The same fair rounds are then replayed step by step through the check's own monitors: if one of
+// them flags a step, that is this property's violation (with the set-up trace as its replay); if none does, the
+// scenario cannot be built and the check stops as a harness error (exit 2) without a verdict.
+func monitoredSetup(t *testing.T, sc *w.Scenario, raw *w.State, why string) {
+	if setupRun != nil && setupNonConvergence != "" {
+		// the property of this check is the fixpoint itself (C02): a first deployment without any fault or deviation
+		// that never settles is its violation
+		setupRun.Violate(h.Violation{Signature: setupNonConvergence, Monitor: "setup", Message: why,
+			Replay: map[string]interface{}{"scenario": sc.Name, "start_state": raw.Describe(), "how": "fair rounds from the start state (first deployment)"}})
+		worldFinish(setupRun)
+		exit(setupRun.Finish("set-up of scenario " + sc.Name + " by fair rounds"))
+	}
+	if setupRun == nil || len(sc.Monitors) == 0 {
+		panic(why)
+	}
+	run := setupRun
+	sc.Init = []*w.State{raw}
+	s := raw
+	var evs []w.Event
+	step := func(e w.Event) {
+		out := w.Step(t, sc, s, e)
+		prefix := append([]w.Event{}, evs...)
+		mc := w.NewMonCtx(sc, s, out, run, func() (int, []w.Event) { return 0, prefix })
+		for _, m := range sc.Monitors {
+			m(mc)
+		}
+		evs = append(evs, e)
+		s = out.Next
+	}
+	for round := 0; round < 8 && !run.HasUnknownViolation(); round++ {
+		for _, p := range s.Pods() {
+			if p.DeletionTimestamp != nil {
+				step(ev("gone", p.Namespace+"/"+p.Name))
+			} else if !w.IsReady(p) {
+				step(ev("ready", p.Namespace+"/"+p.Name))
+			}
+		}
+		for _, e := range s.EDSs() {
+			step(ev("R_eds", e.Namespace+"/"+e.Name))
+		}
+		for _, e := range s.ERSs() {
+			step(ev("R_ers", e.Namespace+"/"+e.Name))
+		}
+		for _, e := range s.EDSs() {
+			step(ev("R_pt", e.Namespace+"/"+e.Name))
+		}
+	}
+	if !run.HasUnknownViolation() {
+		panic(why)
+	}
+	fmt.Println("set-up of scenario", sc.Name, "does not converge; the monitors flagged its steps")
+	confirmByReplay(t, run, sc)
+	run.Cov["evaluations"] = len(evs)
+	run.Count("states", int64(len(evs)))
+	run.Count("transitions", int64(len(evs)))
+	exit(run.Finish("set-up trace of scenario " + sc.Name + " (fair rounds), monitored step by step"))
 }
 
 // explore runs one scenario and accumulates coverage numbers in run.
@@ -95,6 +174,7 @@ func runWorld(t *testing.T, run *h.Run, scs []scOpt, mons []func(*w.MonCtx), max
 			for _, o := range scs {
 				if o.name == x.Scenario {
 					o.mons = mons
+					setupRun = run
 					sc := mkScenario(t, o)
 					final := w.ReplayPath(t, run, sc, x.Init, x.Events)
 					fmt.Println("replayed", len(x.Events), "events; final state:")
@@ -113,6 +193,7 @@ func runWorld(t *testing.T, run *h.Run, scs []scOpt, mons []func(*w.MonCtx), max
 	}
 	for _, o := range scs {
 		o.mons = mons
+		setupRun = run
 		sc := mkScenario(t, o)
 		if maxStates == 0 {
 			maxStates = 2500000 // memory safety cap per scenario; hitting it is reported as exhaustive:false
